@@ -13,7 +13,8 @@ RULE = ('event sequences from boot over the C12-regime alphabet with STOP/START 
         'every sequence ending in the stopped state is continued with 300 s of silent time (pending timers/attempts play out), '
         'then manual-start and a cooperative peer, a peer close and the cooperative peer again (automatic recovery in force); '
         'a stop repeated while stopped must write nothing; searches from boot and from 6 prefix sessions, close completion also as a late separate event; distinct = distinct abstract world fingerprints x stopped flag')
-ASSUMPTIONS = ['simulated Twisted reactor/connector/transport (verif/shims)', 'REST requests are atomic events between reactor callbacks']
+ASSUMPTIONS = ['simulated Twisted reactor/connector/transport (verif/shims)',
+               'REST requests are atomic events between reactor callbacks, except: operator requests inside an unfinished instant (STOP~ / TICK~ in the prefix-seeded searches, 30 % of the events of every second walk) and one explicit race of a send with a manual stop from two worker threads (known finding rest-send-queued-before-manual-stop)']
 SHARD_TIMEOUT = {'quick': 600, 'thorough': 1500}
 DEPTH = {'quick': (3, 7), 'thorough': (4, 10)}
 PARTS = {'quick': 7, 'thorough': 8}
